@@ -220,6 +220,36 @@ const OPERATORS: &[(&str, Operator)] = &[
     (")", Operator::CloseParen),
 ];
 
+/// Parses an integer constant.
+///
+/// The constant is hexadecimal if it starts with `0x` or `0X`, octal if it
+/// starts with `0`, and decimal otherwise. If `negative` is true, the result is
+/// the negation of the constant, which allows yielding `i64::MIN`.
+///
+/// This function is used both for constants appearing in an expression and for
+/// variable values so that they are always interpreted in the same way.
+pub(crate) fn parse_integer_constant(constant: &str, negative: bool) -> Option<i64> {
+    let hex_digits = constant
+        .strip_prefix("0X")
+        .or_else(|| constant.strip_prefix("0x"));
+    let (digits, radix) = if let Some(digits) = hex_digits {
+        (digits, 0x10)
+    } else if constant.starts_with('0') {
+        (constant, 0o10)
+    } else {
+        (constant, 10)
+    };
+    // `from_str_radix` accepts a sign, which is not part of a constant.
+    if !digits.starts_with(|c: char| c.is_digit(radix)) {
+        return None;
+    }
+    if negative {
+        i64::from_str_radix(&format!("-{digits}"), radix).ok()
+    } else {
+        i64::from_str_radix(digits, radix).ok()
+    }
+}
+
 /// Iterator extracting tokens from a string
 ///
 /// `Tokens` implements `Iterator` but never yields `None` because it returns a
@@ -279,18 +309,9 @@ impl<'a> Tokens<'a> {
             let location = start_of_token..end_of_token;
             let token = &source[..token_len];
             let term = if first_char.is_ascii_digit() {
-                let parse = if let Some(token_source) = token.strip_prefix("0X") {
-                    i64::from_str_radix(token_source, 0x10)
-                } else if let Some(token_source) = token.strip_prefix("0x") {
-                    i64::from_str_radix(token_source, 0x10)
-                } else if source.starts_with('0') {
-                    i64::from_str_radix(token, 0o10)
-                } else {
-                    token.parse()
-                };
-                match parse {
-                    Ok(i) => Term::Value(Value::Integer(i)),
-                    Err(_) => {
+                match parse_integer_constant(token, false) {
+                    Some(i) => Term::Value(Value::Integer(i)),
+                    None => {
                         return Err(Error {
                             cause: TokenError::InvalidNumericConstant,
                             location,
